@@ -39,6 +39,7 @@ const (
 	MGarbage   = 8 // A variant
 	MInject    = 9 // A: 0 frame, 1 OPTIONS request, 2 non-OPTIONS request, 3 stale response, 4 OPTIONS request without CSeq; B: channel
 	MSession   = 10
+	MChatter   = 11 // never answer; every ReadTimeout/4, chatterRounds times, send A: 0 a stale response, 1 an OPTIONS request, 2 an interleaved frame
 	MCType     = 20
 	MSDP       = 21
 	MControl   = 22 // A variant, B media index
@@ -117,8 +118,9 @@ type absResp struct {
 
 type reqRecord struct {
 	Method  int   `json:"m"`
-	Events  []int `json:"e"` // flattened abstract events
-	Covered bool  `json:"c"` // false: the mutation is outside what the model describes
+	Events  []int `json:"e"`            // flattened abstract events
+	Covered bool  `json:"c"`            // false: the mutation is outside what the model describes
+	Chatter bool  `json:"ch,omitempty"` // the request was never answered, the server kept talking instead
 }
 
 func (r *absResp) flat() []int {
@@ -210,6 +212,9 @@ type server struct {
 }
 
 const stormLimit = 60
+
+// a chattering server talks for chatterRounds * ReadTimeout/4 = 6 x ReadTimeout
+const chatterRounds = 24
 
 var (
 	certOnce sync.Once
@@ -372,6 +377,7 @@ func (s *server) sdp(ctl [2]string, sessCtl string, back int, pm0 bool, nmedia i
 // (a list of byte chunks with an optional delay before each), the abstract events, and whether to
 // close the connection afterwards / stay silent.
 type outcome struct {
+	chatter []byte // sent every ReadTimeout/4, chatterRounds times, instead of an answer
 	chunks  [][]byte
 	delayMs int
 	closeIt bool
@@ -765,6 +771,21 @@ func (s *server) finish(rr *rawResp, ab *absResp, act Act, method int, covered b
 		o.chunks = [][]byte{rr.bytes()}
 	case MSilence:
 		o.events = nil
+	case MChatter:
+		tok := 6
+		switch act.A {
+		case 0:
+			o.chatter = []byte("RTSP/1.0 200 OK\r\nCSeq: 424242\r\n\r\n")
+		case 1:
+			o.chatter = []byte("OPTIONS rtsp://127.0.0.1/ RTSP/1.0\r\nCSeq: 77\r\n\r\n")
+			tok = 2
+		default:
+			o.chatter = []byte{'$', byte(act.B), 0, 4, 0x80, 0x60, 0, 1}
+			tok = 4
+		}
+		for i := 0; i < chatterRounds; i++ {
+			o.events = append(o.events, 7, 1, tok) // a quarter of ReadTimeout of silence, then the message
+		}
 	case MDelay:
 		o.delayMs = act.A
 		o.chunks = [][]byte{rr.bytes()}
@@ -915,13 +936,25 @@ func (s *server) serve(nc net.Conn) {
 			o = s.respond(req, act)
 		}
 		s.mu.Lock()
-		rec := reqRecord{Method: method, Events: o.events, Covered: o.covered}
+		rec := reqRecord{Method: method, Events: o.events, Covered: o.covered, Chatter: o.chatter != nil}
 		s.records = append(s.records, rec)
 		s.mu.Unlock()
 		if s.onRec != nil {
 			s.onRec(rec)
 		}
 
+		if o.chatter != nil {
+			for i := 0; i < chatterRounds; i++ {
+				time.Sleep(readTimeoutMs / 4 * time.Millisecond)
+				nc.SetWriteDeadline(time.Now().Add(time.Second))
+				if _, err = nc.Write(o.chatter); err != nil {
+					break // the client has given up and closed the connection
+				}
+				s.mu.Lock()
+				s.lastAct = time.Now()
+				s.mu.Unlock()
+			}
+		}
 		if o.delayMs > 0 {
 			time.Sleep(time.Duration(o.delayMs) * time.Millisecond)
 		}
